@@ -21,7 +21,8 @@ def pitfalls(ctx, rule, files):
                 "positionally to np.allclose / np.isclose come in numpy's order (rtol, atol); (d) np.meshgrid over a variable number of "
                 "axes (an index-combination grid) states indexing='ij' (the default 'xy' swaps the first two axes); (e) np.allclose / np.isclose "
                 "with a stated atol also state rtol (numpy's default rtol=1e-5 otherwise applies on top), except against a literal 0; "
-                "(f) where an angle that exceeds +/-c (c a multiple of pi) is shifted back, the shift is not c itself (a wrap into [-c, c] shifts by 2c).")
+                "(f) where an angle that exceeds +/-c (c a multiple of pi) is shifted back, the shift is not c itself (a wrap into [-c, c] shifts by 2c); "
+                "(g) the list a for loop iterates over is not shortened or shifted (remove / pop / insert / del) on a path that continues the loop.")
     rels = {x[len("strawberryfields/"):] if x.startswith("strawberryfields/") else x for x in files}
     n = 0
     for f in ctx.tree.all_functions():
@@ -83,6 +84,29 @@ def pitfalls(ctx, rule, files):
                 ctx.ob(rule, f.site, False, f"`{ast.unparse(sub)[:60]}` enumerates combinations with numpy's default indexing='xy': the "
                        "first two axes come out swapped with respect to itertools.product / kron order", role="meshgrid-xy",
                        line=sub.lineno)
+            if isinstance(sub, ast.For) and isinstance(sub.iter, (ast.Name, ast.Attribute)):
+                # (g) the list a for loop iterates over is not shrunk / shifted inside the loop (the element after a removed one is skipped)
+                L = ast.unparse(sub.iter).replace(" ", "")
+                for st in ast.walk(sub):
+                    mut = None
+                    if isinstance(st, ast.Call) and isinstance(st.func, ast.Attribute) and st.func.attr in ("remove", "pop", "insert") and \
+                            ast.unparse(st.func.value).replace(" ", "") == L:
+                        mut = st
+                    if isinstance(st, ast.Delete) and any(isinstance(t, ast.Subscript) and ast.unparse(t.value).replace(" ", "") == L
+                                                           for t in st.targets):
+                        mut = st
+                    if mut is None:
+                        continue
+                    cfg = cfg or cfg_of(f.node)
+                    ids = cfg.find(mut) if isinstance(mut, ast.stmt) else cfg.node_of_expr(mut)
+                    heads = [nd.id for nd in cfg.nodes if nd.kind == "for" and nd.stmt is sub]
+                    if not ids or not heads:
+                        continue
+                    n += 1
+                    again = bool(cfg.reachable([b for b, _l in cfg.successors(ids[0], exc=False)], exc=False) & set(heads))
+                    ctx.ob(rule, f.site, not again, "" if not again else f"`{ast.unparse(mut)[:50]}` inside `for ... in {L}`: the loop goes on "
+                           "over the list it has just shortened - the element that follows a removed one is never examined",
+                           role="mutated-while-iterated", line=mut.lineno)
             if isinstance(sub, (ast.If, ast.While)):
                 # (f) an angle is wrapped into [-c, c] by shifting it by 2c; a shift by the threshold itself lands in the wrong half
                 r_ = rel(sub.test, True)
